@@ -417,6 +417,13 @@ pub fn concretise(blocks: &[ABlock]) -> (String, TableHandler) {
 /// Run abstract blocks through the implementation; one case per block.  HALT infos must agree
 /// across the blocks of one program (the caller guarantees it).
 pub fn run_abstract(run: &mut Run, blocks: &[ABlock], tag: &str) {
+    run_abstract_with(run, blocks, tag, &|i, t, o| Some(case_coq(i, t, o)));
+}
+
+/// Case formatter: (summaries, terminator summary, observed result) -> Gallina literal, or None to skip.
+pub type CaseFmt<'a> = &'a dyn Fn(&[Info], Option<&Info>, &Obs) -> Option<String>;
+
+pub fn run_abstract_with(run: &mut Run, blocks: &[ABlock], tag: &str, fmt: CaseFmt) {
     let (text, handler) = concretise(blocks);
     let program = match Program::from_str(&text) {
         Ok(p) => p,
@@ -449,7 +456,10 @@ pub fn run_abstract(run: &mut Run, blocks: &[ABlock], tag: &str) {
         }
         mutate(&mut obs, len);
         let term = ab.term.as_ref().map(|t| &t.1);
-        let coq = case_coq(&ab.infos, term, &obs);
+        let coq = match fmt(&ab.infos, term, &obs) {
+            Some(c) => c,
+            None => continue,
+        };
         let nontrivial = len >= 2 && matches!(obs, Obs::Ok(_));
         run.count(&format!("{tag}:len={}", len.min(9)));
         run.count(match &obs {
@@ -806,6 +816,10 @@ pub fn e2e_blocks(program: &Program) -> Vec<E2eBlock> {
 }
 
 pub fn run_e2e_text(run: &mut Run, text: &str, tag: &str) {
+    run_e2e_text_with(run, text, tag, &|i, t, o| Some(case_coq(i, t, o)));
+}
+
+pub fn run_e2e_text_with(run: &mut Run, text: &str, tag: &str, fmt: CaseFmt) {
     let program = match Program::from_str(text) {
         Ok(p) => p,
         Err(e) => {
@@ -825,7 +839,10 @@ pub fn run_e2e_text(run: &mut Run, text: &str, tag: &str) {
     for (bi, mut b) in blocks.into_iter().enumerate() {
         let len = b.infos.len();
         mutate(&mut b.obs, len);
-        let coq = case_coq(&b.infos, b.term.as_ref(), &b.obs);
+        let coq = match fmt(&b.infos, b.term.as_ref(), &b.obs) {
+            Some(c) => c,
+            None => continue,
+        };
         run.count(&format!("{tag}:len={}", len.min(9)));
         run.count(match &b.obs {
             Obs::Ok(_) => "result:ok",
